@@ -29,7 +29,7 @@ def corpus_cases():
     return out
 
 
-def run(ctx, prop_files, flavours, n_quick, n_thorough, what, note=None):
+def run(ctx, prop_files, flavours, n_quick, n_thorough, what, note=None, fifo=False):
     proof = vlib.coq_prove(ctx, prop_files, leaves=['queue', 'queueconc', 'locks'])
     res = vlib.build_many(ctx, [dict(name='qconc', src='qconc.cpp', defs=[]), dict(name='qconc_heter', src='qconc.cpp', defs=['VH_HETER=1'])])
     binary, err = res['qconc']
@@ -42,11 +42,11 @@ def run(ctx, prop_files, flavours, n_quick, n_thorough, what, note=None):
     ncorpus = len(cases)
     for k in range(ctx.budget(n_quick, n_thorough)):
         cases.append(qc_domain.gen_case(ctx.rng.fork(), flavours[k % len(flavours)]))
-    st, model, texts = qc_domain.correspond(ctx, binary, cases, what)
+    st, model, texts = qc_domain.correspond(ctx, binary, cases, what, fifo=fifo)
     # HeterEventQueue has the same synchronisation skeleton (enqueue / process / processOne / processIf / clearEvents /
     # emptyQueue / wait / waitFor): the same programs, the same schedules, the same model
     hcases = [c for c in cases if all(cmd[0] in HETER_OPS for th in c['threads'] for cmd in th)]
-    hst, _, _ = qc_domain.correspond(ctx, hbinary, hcases, what.replace('EventQueue', 'HeterEventQueue'))
+    hst, _, _ = qc_domain.correspond(ctx, hbinary, hcases, what.replace('EventQueue', 'HeterEventQueue'), fifo=fifo)
     st['heter_compared'] = hst['compared']
     st['heter_disagreements'] = hst['disagreements']
     if not proof['ok'] and not ctx.violations:
@@ -70,7 +70,7 @@ def run(ctx, prop_files, flavours, n_quick, n_thorough, what, note=None):
     ctx.assumptions += [note or 'PARTIAL: see level_note; the invariant over all interleavings is checked by schedule replay, not proved']
 
 
-def replay(ctx, path):
+def replay(ctx, path, fifo=False):
     res = vlib.build_many(ctx, [dict(name='qconc', src='qconc.cpp', defs=[])])
     binary = res['qconc'][0]
     bad = 0
@@ -78,6 +78,9 @@ def replay(ctx, path):
         t, m, im = qc_domain.run_both(binary, case)
         print('model: ' + ' | '.join(m))
         print('impl : ' + ' | '.join(im))
-        if m != im or qc_domain.monitors(im, case):
+        probs = qc_domain.monitors(im, case) + ([x for x, _ in qc_domain.fifo_problems(im, case)] if fifo else [])
+        for x in probs:
+            print('monitor: ' + x)
+        if m != im or probs:
             bad += 1
     return bad
